@@ -27,7 +27,8 @@ CHECKS = {
         "of arrivals (nil messages, other contents, duplicates, re-encodings, foreign requests/groups, any order): a report "
         "(result, sig) always satisfies sig = H(result ++ a) * x for the 20 bytes a that closed the signed content - the "
         "contract's equation (C01_only_valid_reports); nothing after a report changes it (C01_single_report); no panic on "
-        "contents of at least address length (C01_stage_no_panic); once collected + arriving shares contain valid shares of t "
+        "any arrival sequence whatsoever, short contents and short signatures included (C01_stage_never_panics; "
+        "C01_stage_no_panic is the older statement under a length premise); once collected + arriving shares contain valid shares of t "
         "distinct members on the arriving content the stage reports, whatever junk is present (C01_stage_live, uses C02). "
         "Tie: (a) the real recoverSign driven with scripted arrivals vs the extracted model; (b) n = 3..7 real DosNodes "
         "(queryLoop + handleQuery) over an in-memory network with up to n-t members playing {silent, duplicate, re-encoded, "
